@@ -304,10 +304,15 @@ def finish(prop, tier, seed, t0, proof, violations, coverage, assumptions, level
         print("KNOWN-FINDING: property=%s panel=%s site=%s clause=%s %s (%d occurrence(s) this run)" % (
             prop, panel, site, clause, f['text'], len(vs)))
     # listed findings that were not observed this run
+    # listed findings not re-observed on the implementation by this run's sample of histories: each is
+    # witnessed on the model by the theorem <prop>_findings_witnessed / a _refuted theorem, and the model
+    # is tied to the implementation by the correspondence (a repaired implementation would break it)
+    not_seen = 0
     for f in findings:
         if f.get('property') == prop and not any(sig_matches(f, v) for v in violations):
-            print("NOTE: listed finding not observed this run (stale?): panel=%s site=%s clause=%s" % (
-                f.get('panel'), f.get('site'), f.get('clause')))
+            not_seen += 1
+            print("KNOWN-FINDING: property=%s panel=%s site=%s clause=%s %s (witnessed on the model by theorem %s_findings_witnessed; not re-observed on the implementation by this run's history sample)" % (
+                prop, f.get('panel'), f.get('site'), f.get('clause'), f['text'], prop))
     os.makedirs(os.path.join(ROOT, 'replay'), exist_ok=True)
     code = 0
     seen = set()
@@ -334,6 +339,7 @@ def finish(prop, tier, seed, t0, proof, violations, coverage, assumptions, level
     cov['theorems'] = proof['theorems']
     cov['proof_problems'] = proof['problems']
     cov['known_findings_observed'] = len(known)
+    cov['known_findings_listed_not_reobserved'] = not_seen
     if notes:
         cov['notes'] = notes
     ev = dict(property_id=prop, tier=tier, seed=seed, level=level, coverage=cov, assumptions=assumptions,
@@ -366,3 +372,42 @@ def corr_violations(prop, mism, projs, ops=None, panels=None):
                                     case=m['case'], op_index=m['opidx'], op=m['op'], projections=m['projs'],
                                     first_diff=m['first_diff'], script=m['script'])))
     return out
+
+# ------------------------------------------------------------------ cached oracle runs (real traces -> extracted observer)
+def oracle_run(suite, seed, tier, feats=('v3', 'v2', 'alt')):
+    """Protocol-respecting histories on the REAL crate, judged by the extracted Coq observer.
+    -> dict(fails=[{panel, feat, case, opidx, op, prop, clause, script_path}], stats, errors)"""
+    import oracle
+    key = hashlib.sha256(('|'.join(['oracle', repo_hash(), verif_hash(), suite, str(seed), tier, ','.join(feats)])).encode()).hexdigest()[:20]
+    odir = os.path.join(WORK, 'orc-' + key)
+    idx = os.path.join(odir, 'index.json')
+    with Lock('corr'):
+        if os.path.exists(idx):
+            return json.load(open(idx))
+        os.makedirs(odir, exist_ok=True)
+        t0 = time.time()
+        res = dict(fails=[], cases=0, ops=0, errors=[], dir=odir)
+        mexe, log = corr.build_model()
+        if not mexe:
+            res['errors'].append("model build failed: " + log[-1500:])
+        else:
+            for feat in feats:
+                hexe, err = corr.build_harness(feat)
+                if not hexe:
+                    res['errors'].append("harness build failed (%s): %s" % (feat, err[-1500:]))
+                    continue
+                fails, st = oracle.run_oracle(panels_for(feat), feat, suite, seed, hexe, mexe, os.path.join(odir, feat))
+                res['fails'] += fails
+                res['cases'] += st['cases']
+                res['ops'] += st['ops']
+                res['errors'] += st['errors']
+        res['wall_s'] = time.time() - t0
+        json.dump(res, open(idx, 'w'))
+        dirs = sorted(glob.glob(os.path.join(WORK, 'orc-*')), key=os.path.getmtime)
+        for d in dirs[:-4]:
+            sh("rm -rf %s" % d)
+        return res
+
+def known_sync_problem():
+    r = sh("cd %s && python3 tools/gen_known.py --check" % ROOT)
+    return None if r.returncode == 0 else "coq/Spec/Known.v is out of sync with known_findings.txt (run tools/gen_known.py)"
